@@ -99,5 +99,19 @@ let handle = function
   | "SYNC" :: fields ->
       let s = parse_script fields in
       Printf.sprintf "%d %d" (if sync_ok s then 1 else 0) (if done_ok s then 1 else 0)
+  | ["INIT"; admin; doas; sudo; obsd; cands] ->
+      (* cands: spawn:rv:linehex,linehex,... ; ... in the order tried ("-" = none); rv "-" = still running *)
+      let parse_cand c =
+        match String.split_on_char ':' c with
+        | [sp; rv; lines] ->
+            { c_spawn = (sp = "1"); c_rv = opt zint rv;
+              c_lines = (if lines = "_" then [] else List.map bytes_of_hex (String.split_on_char ',' lines)) }
+        | _ -> failwith ("bad candidate " ^ c) in
+      let cs = if cands = "-" then [] else List.map parse_cand (String.split_on_char ';' cands) in
+      let order = try_order (admin = "1") (doas = "1") (sudo = "1") (obsd = "1") in
+      let ostr = String.concat "," (List.map (function PSudo -> "sudo" | PDoas -> "doas" | PDirect -> "direct") order) in
+      (match fw_init cs with
+       | Some (k, m) -> Printf.sprintf "ORDER %s CHOSEN %d %s" ostr (int_of_nat k) (hex_of_bytes m)
+       | None -> Printf.sprintf "ORDER %s NONE" ostr)
   | _ -> "ERROR bad command"
 let () = main_loop handle
